@@ -114,6 +114,89 @@ theorem restrict_indexed (keep : List Name) (n : Name) (d : List Name) (rs : Lis
   rw [← h, restrict_foldl_addRoute, ← h']
   rfl
 
+/-! ### what the tables of `index` contain -/
+
+theorem lookup_cons_eq {κ ν} [DecidableEq κ] [BEq κ] [LawfulBEq κ] (k' k0 : κ) (v0 : ν) (l : List (κ × ν)) :
+    List.lookup k' ((k0, v0) :: l) = if k' = k0 then some v0 else List.lookup k' l := by
+  by_cases h : k' = k0
+  · subst h; simp [List.lookup]
+  · have hb : (k' == k0) = false := by simpa using h
+    simp [List.lookup, hb, h]
+
+theorem lookup_dictSet {κ ν} [DecidableEq κ] [BEq κ] [LawfulBEq κ] (k k' : κ) (v : ν) (l : List (κ × ν)) :
+    List.lookup k' (dictSet k v l) = if k' = k then some v else List.lookup k' l := by
+  induction l with
+  | nil => simp [dictSet, lookup_cons_eq]
+  | cons kv rest ih =>
+    obtain ⟨k0, v0⟩ := kv
+    by_cases h0 : k0 = k
+    · subst h0
+      simp only [dictSet, if_true, lookup_cons_eq]
+      by_cases h : k' = k0 <;> simp [h]
+    · simp only [dictSet, h0, if_false, lookup_cons_eq, ih]
+      by_cases h1 : k' = k0
+      · subst h1
+        have : ¬ k' = k := h0
+        simp [this]
+      · simp [h1]
+
+def look1 (ns : Namespace) (n : Name) : Option Route := ns.routeByName.lookup n
+
+def look2 (ns : Namespace) (n : Name) (v : Int) : Option Route :=
+  (ns.routesByName.lookup n).bind fun d => d.lookup v
+
+theorem look1_addRoute (ns : Namespace) (r : Route) (n : Name) :
+    look1 (ns.addRoute r) n = if (decide (r.name = n) && decide (r.version = 1)) = true then some r else look1 ns n := by
+  simp only [look1, Namespace.addRoute]
+  by_cases hv : r.version = 1
+  · simp only [hv, if_true, lookup_dictSet]
+    by_cases hn : n = r.name
+    · subst hn; simp
+    · have : ¬ r.name = n := fun e => hn e.symm
+      simp [hn, this]
+  · simp [hv]
+
+theorem look2_addRoute (ns : Namespace) (r : Route) (n : Name) (v : Int) :
+    look2 (ns.addRoute r) n v =
+      if (decide (r.name = n) && decide (r.version = v)) = true then some r else look2 ns n v := by
+  simp only [look2, Namespace.addRoute, lookup_dictSet]
+  by_cases hn : n = r.name
+  · subst hn
+    simp only [if_true, Option.bind_some, lookup_dictSet, decide_true, Bool.true_and, decide_eq_true_eq]
+    by_cases hv : v = r.version
+    · subst hv; simp
+    · have : ¬ r.version = v := fun e => hv e.symm
+      simp only [hv, this, if_false]
+      cases List.lookup r.name ns.routesByName <;> simp
+  · have : ¬ r.name = n := fun e => hn e.symm
+    simp [hn, this]
+
+theorem foldl_look1 (rs : List Route) (ns : Namespace) (n : Name) :
+    look1 (rs.foldl Namespace.addRoute ns) n =
+      rs.foldl (fun acc r => if (decide (r.name = n) && decide (r.version = 1)) = true then some r else acc) (look1 ns n) := by
+  induction rs generalizing ns with
+  | nil => rfl
+  | cons r rs ih => simp only [List.foldl_cons, ih, look1_addRoute]
+
+theorem foldl_look2 (rs : List Route) (ns : Namespace) (n : Name) (v : Int) :
+    look2 (rs.foldl Namespace.addRoute ns) n v =
+      rs.foldl (fun acc r => if (decide (r.name = n) && decide (r.version = v)) = true then some r else acc) (look2 ns n v) := by
+  induction rs generalizing ns with
+  | nil => rfl
+  | cons r rs ih => simp only [List.foldl_cons, ih, look2_addRoute]
+
+/-- `route_by_name[n]` is the last version-1 route named `n` of the list, `routes_by_name[n].at_version[v]`
+the last route named `n` with version `v` (the only one, for the frontend's lists) -/
+theorem index_lookup (rs : List Route) (n : Name) (v : Int) :
+    (index rs).1.lookup n = lastMatch (fun r => decide (r.name = n) && decide (r.version = 1)) rs ∧
+    ((index rs).2.lookup n).bind (fun d => d.lookup v) =
+      lastMatch (fun r => decide (r.name = n) && decide (r.version = v)) rs := by
+  refine ⟨?_, ?_⟩
+  · have := foldl_look1 rs ⟨[], [], [], [], []⟩ n
+    simpa [look1, index, lastMatch] using this
+  · have := foldl_look2 rs ⟨[], [], [], [], []⟩ n v
+    simpa [look2, index, lastMatch] using this
+
 /-! ### the stages of `prune` -/
 
 theorem clearRoutes_eq_indexed (ns : Namespace) :
